@@ -1022,6 +1022,168 @@ func genSecNets(r *rng, idx int) srvCase {
 	return c
 }
 
+// ---------------------------------------------------------------- scenario: get_peers over peer families (C09 C11)
+// What a get_peers reply carries is decided by what is left of the stored peers AFTER the BEP 32 filter: values when
+// some remain, else the closest good contacts of the families the requester wants. The whole product is walked on a
+// node with a peer store: info-hashes whose stored peers are {none, 4-byte IPv4 only, IPv6 only, v4-mapped 16-byte only,
+// IPv4 + IPv6, IPv4 + its v4-mapped twin + IPv6, IPv6 only again} x requester address {IPv4, IPv6, v4-mapped} x want {absent, n4, n6,
+// n4 n6, n6 n4, junk, junk n6} x a table holding good contacts of both families / IPv4 only / IPv6 only (plus
+// questionable ones of each family, which are never listed), with the info-hashes spread over the buckets. Afterwards
+// (some cases) all contacts age out of "good", a few come back, and part of the product is asked again.
+var peerFamWants = [][]krpc.Want{nil, {"n4"}, {"n6"}, {"n4", "n6"}, {"n6", "n4"}, {"junk"}, {"junk", "n6"}}
+
+func genPeerFam(r *rng, idx int) srvCase {
+	c := srvCase{idx: idx, cfg: baseCfg(r, "peerfam")}
+	variant := r.intn(1 << 16)
+	tableKind := idx % 4 // 0, 3: both families; 1: IPv4 contacts only; 2: IPv6 contacts only
+	c.cfg.cb = variant&4 != 0
+	c.cfg.wait = variant&8 != 0
+	if variant&16 != 0 {
+		// a peer store that answers "no peers" with an empty, non-nil slice
+		c.cfg.psEmpty = true
+		c.cfg.scenario = "peerfam-emptyslice"
+	}
+	root := c.cfg.root
+	qid := 0
+	lowBuckets := []int{0, 0, 1, 2}
+	var good4, good6 []speer
+	contact := func(fam int, answered bool) speer {
+		p := speer{addr: randAddr(r, fam), id: idInBucket(r, root, lowBuckets[r.intn(len(lowBuckets))])}
+		if answered {
+			c.evs = append(c.evs, makeGood(&qid, p, nil)...)
+		} else {
+			c.evs = append(c.evs, qpkt(p.addr, "ping", string(r.bytes(2)), argsID(p.id)))
+		}
+		return p
+	}
+	// the routing table first (while there is room in every bucket), then the announces
+	if tableKind != 2 {
+		for i, n := 0, 2+r.intn(4); i < n; i++ {
+			good4 = append(good4, contact(0, true))
+		}
+		if r.bool() {
+			good4 = append(good4, contact(2, true)) // a v4-mapped source is an IPv4 contact
+		}
+	}
+	if tableKind != 1 {
+		for i, n := 0, 2+r.intn(4); i < n; i++ {
+			good6 = append(good6, contact(1, true))
+		}
+	}
+	contact(0, false)
+	contact(1, false)
+	// info-hash classes
+	type ihClass struct {
+		ih   [20]byte
+		fams []int // address form of each announcer: 0 IPv4 4-byte, 1 IPv6, 2 v4-mapped, 3 mapped twin of the previous IPv4 one
+	}
+	ihBuckets := []int{2, 3, 8, 40, 100, 159}
+	mkIH := func() (ih [20]byte) {
+		switch x := r.intn(10); {
+		case x == 0:
+			return root // the node's own id as info-hash: the walk starts at the last bucket
+		case x <= 2:
+			return idInBucket(r, root, r.intn(2)) // a far info-hash: nearer buckets are not consulted at all
+		default:
+			return idInBucket(r, root, ihBuckets[r.intn(len(ihBuckets))])
+		}
+	}
+	rep := func(fam, n int) (l []int) {
+		for i := 0; i < n; i++ {
+			l = append(l, fam)
+		}
+		return
+	}
+	classes := []ihClass{
+		{mkIH(), nil},
+		{mkIH(), rep(0, 1+r.intn(3))},
+		{mkIH(), rep(1, 1+r.intn(3))},
+		{mkIH(), rep(2, 1+r.intn(2))},
+		{mkIH(), append(rep(0, 1+r.intn(2)), rep(1, 1+r.intn(2))...)},
+		{mkIH(), []int{1, 0, 3, 2}},
+		{mkIH(), rep(1, 1+r.intn(9))}, // IPv6 only once more: another bucket, up to 9 peers
+	}
+	for k := 1; k < len(classes); k++ {
+		for classes[k].ih == classes[0].ih {
+			classes[k].ih = idInBucket(r, root, ihBuckets[r.intn(len(ihBuckets))])
+		}
+	}
+	announce := func(src *net.UDPAddr, ih [20]byte) {
+		id := idInBucket(r, root, 3+r.intn(150))
+		c.evs = append(c.evs, qpkt(src, "get_peers", "t", &krpc.MsgArgs{ID: id, InfoHash: ih}))
+		port := []int{1, 80, 6881, 65535, 1 + r.intn(65535)}[r.intn(5)]
+		implied := r.intn(4) == 0
+		e := sev{kind: "pkt", src: src}
+		e.dyn = func(st *srvState, e *sev) {
+			a := &krpc.MsgArgs{ID: id, InfoHash: ih, Token: st.lastTok[ipKey(src.IP)], ImpliedPort: implied, Port: &port}
+			e.msg = &krpc.Msg{Q: "announce_peer", Y: "q", T: "ap", A: a}
+		}
+		c.evs = append(c.evs, e)
+	}
+	for _, cl := range classes {
+		var last *net.UDPAddr
+		for _, fam := range cl.fams {
+			src := randAddr(r, fam%3)
+			if fam == 3 && last != nil {
+				src = udp(mapped(last.IP.To4()), 1+r.intn(65535))
+			}
+			if fam == 0 {
+				last = src
+			}
+			announce(src, cl.ih)
+		}
+	}
+	// the requesters: one address of each form (fixed ids: they take three table slots, far from the contacts' buckets)
+	clients := []speer{
+		{addr: randAddr(r, 0), id: idInBucket(r, root, 4+r.intn(150))},
+		{addr: randAddr(r, 1), id: idInBucket(r, root, 4+r.intn(150))},
+		{addr: randAddr(r, 2), id: idInBucket(r, root, 4+r.intn(150))},
+	}
+	type ask struct{ cl, who, want int }
+	var sweep []ask
+	for cl := range classes {
+		for who := range clients {
+			for w := range peerFamWants {
+				sweep = append(sweep, ask{cl, who, w})
+			}
+		}
+	}
+	for i := range sweep {
+		j := i + r.intn(len(sweep)-i)
+		sweep[i], sweep[j] = sweep[j], sweep[i]
+	}
+	emitAsk := func(a ask) {
+		args := &krpc.MsgArgs{ID: clients[a.who].id, InfoHash: classes[a.cl].ih, Want: peerFamWants[a.want]}
+		c.evs = append(c.evs, qpkt(clients[a.who].addr, "get_peers", string(r.bytes(1+r.intn(3))), args))
+	}
+	for _, a := range sweep {
+		emitAsk(a)
+	}
+	if variant&32 != 0 {
+		// every contact ages out of "good": values as before, no node lists any more; then one contact of each family
+		// is heard from again (a query from a contact that answered before makes it good again)
+		c.evs = append(c.evs, sev{kind: "adv", adv: []time.Duration{16 * time.Minute, 31 * time.Minute}[r.intn(2)]})
+		for i := 0; i < 10; i++ {
+			emitAsk(sweep[r.intn(len(sweep))])
+		}
+		if len(good4) > 0 {
+			p := good4[r.intn(len(good4))]
+			c.evs = append(c.evs, qpkt(p.addr, "ping", "bk", argsID(p.id)))
+		}
+		for i := 0; i < 8; i++ {
+			emitAsk(sweep[r.intn(len(sweep))])
+		}
+		if len(good6) > 0 {
+			p := good6[r.intn(len(good6))]
+			c.evs = append(c.evs, qpkt(p.addr, "ping", "bk", argsID(p.id)))
+		}
+		for i := 0; i < 10; i++ {
+			emitAsk(sweep[r.intn(len(sweep))])
+		}
+	}
+	return c
+}
+
 func genServerCases(seed uint64, tier string) []srvCase {
 	r := &rng{s: seed ^ 0x5e7e7}
 	mult := 1
@@ -1050,5 +1212,6 @@ func genServerCases(seed uint64, tier string) []srvCase {
 	add(genMethodsBare, 2)
 	add(genPeersHook, 4)
 	add(genSecNets, 4)
+	add(genPeerFam, 4)
 	return cases
 }
